@@ -77,7 +77,7 @@ func support() wk.Spec {
 
 type variant struct {
 	name  string
-	kind  string  // classifier: point, path, area-by-paths, area-by-polygons, area-mixed, relation, collection
+	kind  string   // classifier: point, path, area-by-paths, area-by-polygons, area-mixed, relation, collection
 	spec  wk.FSpec // the feature under test
 	other wk.FSpec // same ID, different content of a different size: the earlier version (replace / shadow modes) and the MergeFrom argument
 	spare bool     // build with spare capacity in every slice
